@@ -38,7 +38,7 @@ Lemma gen_stack_AddValue cls n (cap : nat) l a F :
   (Z.of_nat (length l) + 1 < two63)%Z -> length l + 120 <= F ->
   call_at F (stk_val cls n (Z.of_nat cap) l) id_AddValue [VElem a] =
   match stack_push cap l a with
-  | Ret l' => ROk (VTuple [], stk_val cls n (Z.of_nat cap) l') | _ => RPanic
+  | Ret l' => ROk (VTuple [], stk_val cls n (Z.of_nat cap) l') | _ => RPanic (stk_val cls n (Z.of_nat cap) l)
   end.
 Proof.
   intros HL HF. unfold stack_push.
@@ -53,7 +53,7 @@ Lemma gen_stack_RemoveTop cls n cap l F :
   (Z.of_nat (length l) < two63)%Z -> length l + 120 <= F ->
   call_at F (stk_val cls n cap l) id_RemoveTop [] =
   match stack_pop l with
-  | Ret (x, l') => ROk (VElem x, stk_val cls n cap l') | _ => RPanic
+  | Ret (x, l') => ROk (VElem x, stk_val cls n cap l') | _ => RPanic (stk_val cls n cap l)
   end.
 Proof.
   intros HL HF.
@@ -77,29 +77,29 @@ Definition obs_of (o : kop A) (v : val A) : kobs A :=
   | KPop _, VElem x => KVal A x
   | _, _ => KUnit A
   end.
-(* a panicking call leaves the stack as it was (the generated AddValue / RemoveTop panic in their first
-   statement, before anything is written); running out of fuel or getting stuck ends the history *)
+(* the history goes on from the receiver as each call left it, also when the call panicked (a MiniGo panic
+   carries the receiver at the point of the panic); running out of fuel or getting stuck ends the history *)
 Fixpoint gen_krun (F : nat) (recv : val A) (ops : list (kop A)) : option (val A * list (kobs A)) :=
   match ops with
   | [] => Some (recv, [])
   | o :: rest =>
-    match run_method F recv (fst (gen_kop o)) (snd (gen_kop o)) with
-    | Ret (v, recv') => option_map (fun r => (fst r, obs_of o v :: snd r)) (gen_krun F recv' rest)
-    | Panic => option_map (fun r => (fst r, KPanic A :: snd r)) (gen_krun F recv rest)
-    | Hang => None
+    match call_at F recv (fst (gen_kop o)) (snd (gen_kop o)) with
+    | ROk (v, recv') => option_map (fun r => (fst r, obs_of o v :: snd r)) (gen_krun F recv' rest)
+    | RPanic recv' => option_map (fun r => (fst r, KPanic A :: snd r)) (gen_krun F recv' rest)
+    | _ => None
     end
   end.
 
 Lemma gen_kstep cls n (cap : nat) l o F :
   length l <= cap -> (Z.of_nat cap + 1 < two63)%Z -> cap + 120 <= F ->
-  run_method F (stk_val cls n (Z.of_nat cap) l) (fst (gen_kop o)) (snd (gen_kop o)) =
+  call_at F (stk_val cls n (Z.of_nat cap) l) (fst (gen_kop o)) (snd (gen_kop o)) =
   match snd (kstep A cap l o) with
-  | KPanic _ => Panic
-  | KVal _ x => Ret (VElem x, stk_val cls n (Z.of_nat cap) (fst (kstep A cap l o)))
-  | KUnit _ => Ret (VTuple [], stk_val cls n (Z.of_nat cap) (fst (kstep A cap l o)))
+  | KPanic _ => RPanic (stk_val cls n (Z.of_nat cap) (fst (kstep A cap l o)))
+  | KVal _ x => ROk (VElem x, stk_val cls n (Z.of_nat cap) (fst (kstep A cap l o)))
+  | KUnit _ => ROk (VTuple [], stk_val cls n (Z.of_nat cap) (fst (kstep A cap l o)))
   end.
 Proof.
-  intros HL HC HF. unfold MiniGo.run_method, MiniGo.call_at. destruct o as [v| |]; cbn [gen_kop fst snd kstep].
+  intros HL HC HF. destruct o as [v| |]; cbn [gen_kop fst snd kstep].
   - rewrite gen_stack_AddValue by lia. destruct (stack_push cap l v); reflexivity.
   - rewrite gen_stack_RemoveTop by lia. destruct (stack_pop l) as [[x l']| |]; reflexivity.
   - rewrite gen_stack_RemoveAll by lia. reflexivity.
@@ -117,16 +117,15 @@ Proof.
   - rewrite gen_kstep by assumption.
     pose proof (kstep_bound A cap l o HL) as HB.
     destruct (kstep A cap l o) as [l' ob] eqn:EK. cbn [fst snd] in *.
-    assert (PF : ob = KPanic A -> l' = l) by (intros ->; apply (C13_panic_frame A cap l o); exact EK).
     specialize (IH l' F HB HC HF).
     destruct (krun A cap l' rest) as [lf obs] eqn:ER. cbn [fst snd] in *.
-    destruct ob as [|x|]; cbn [fst snd].
-    + rewrite IH. cbn [option_map fst snd]. destruct o; reflexivity.
-    + rewrite IH. cbn [option_map fst snd]. destruct o as [v| |]; cbn [kstep] in EK.
+    destruct ob as [|x|]; cbn [fst snd]; rewrite IH; cbn [option_map fst snd].
+    + destruct o; reflexivity.
+    + destruct o as [v| |]; cbn [kstep] in EK.
       * destruct (stack_push cap l v); inversion EK.
       * reflexivity.
       * inversion EK.
-    + rewrite <- (PF eq_refl). rewrite IH. reflexivity.
+    + reflexivity.
 Qed.
 
 End GenC13.
@@ -189,6 +188,21 @@ Proof.
   rewrite gen_krun_is_krun by (assumption || lia). rewrite C13_push_pop by exact HL. reflexivity.
 Qed.
 
+(* a generated call that panics leaves the stack object exactly as it was *)
+Theorem C13_gen_panic_leaves_unchanged :
+  forall (A : Type) (zero : A) (ext : ident -> ident -> val A -> list (val A) -> option (val A))
+         (cls n : val A) (cap : nat) (l : list A) (a : A) (F : nat),
+    (Z.of_nat (length l) + 1 < two63)%Z -> length l + 120 <= F ->
+    (stack_push cap l a = Panic ->
+     panic_state A zero ext prog F (stk_val cls n (Z.of_nat cap) l) id_AddValue [VElem a] = Some (stk_val cls n (Z.of_nat cap) l)) /\
+    (stack_pop l = Panic ->
+     panic_state A zero ext prog F (stk_val cls n (Z.of_nat cap) l) id_RemoveTop [] = Some (stk_val cls n (Z.of_nat cap) l)).
+Proof.
+  intros A zero ext cls n cap l a F HL HF. unfold panic_state, call_at. split; intros E.
+  - rewrite gen_stack_AddValue by lia. rewrite E. reflexivity.
+  - rewrite gen_stack_RemoveTop by lia. rewrite E. reflexivity.
+Qed.
+
 (* non-vacuity: capacity 3, stack [3;2;1] (top first): push 4 panics, pop gives 3, push 9, pop gives 9 *)
 Example C13_gen_history_example :
   gen_krun Z 0%Z no_ext 200 (stk_val VNil VNil 3 [3; 2; 1]%Z) [KPush Z 4%Z; KPop Z; KPush Z 9%Z; KPop Z] =
@@ -199,3 +213,4 @@ Print Assumptions C13_gen_methods_compute_the_model.
 Print Assumptions C13_gen_history_is_the_model_history.
 Print Assumptions C13_gen_never_exceeds_capacity.
 Print Assumptions C13_gen_push_then_pop.
+Print Assumptions C13_gen_panic_leaves_unchanged.
